@@ -215,4 +215,29 @@ PROPS = {
                  thorough=ev("^ZZ_C08_", "as quick with 4 document permutations and <=2 simultaneously deviating map sites", "K>=3 deviating sites", models=100, mapsched=2, native_repeat=200, wall=3000)),
         ],
     ),
+    "C09": dict(
+        assumptions=["partial: txt and md of the list report (with/without exposure) and of the diff report. The reference encoder (harness) is written from the layout of the two formats, reads the relation through the public accessors "
+                     "and renders a connection with ConnectionSet.String (a different routine than the formatters' ConnStrFromConnProperties)",
+                     "not claimed: json, csv (reflection / bufio byte buffers cannot carry symbolic text), dot (graph layout), ingress-controller lines in the diff formats; 'parsing back' is replaced by equality with the reference encoding, which is stronger for the formats covered"],
+        groups=[
+            dict(pkg=CONNLIST, harness="harness/connlist", shared="harness/shared",
+                 quick=ev("^ZZ_C09_", "the C08 world (3-5 workloads, 2-4 policies, optional ANPs / ingress objects, IP ranges) with every relative order of the symbolic ports (multi-range and multi-protocol port sets), exposure on/off; txt and md",
+                          "json, csv, dot", models=40)),
+            dict(pkg=DIFF, harness="harness/diff", shared="harness/shared", extra=[["pkg/netpol/connlist", "harness/extra_connlist"]],
+                 quick=ev("^ZZ_C09_", "two inputs: workloads a,b (+ new workload / lost workload), a policy with a symbolic TCP range (+ a symbolic UDP port) on each side or none on side 2, IP ranges; txt and md of the diff with names dir1/dir2",
+                          "csv, dot; ingress-controller entries", models=40)),
+        ],
+    ),
+    "C18": dict(
+        assumptions=["partial, in-process: the bodies of the list and diff commands (runListCommand / runDiffCommand reading their flag variables) against the library calls with the same options. "
+                     "Environment stubs: manifest scanner (vf_RegisterDir; natively real files), standard output (vf_CaptureStdout; natively a pipe), logging",
+                     "not claimed: cobra flag parsing, the process exit status of the built binary, -f FILE (file I/O), json/csv output (cannot carry symbolic text), live-cluster mode"],
+        groups=[
+            dict(pkg="pkg/cli", harness="harness/cli", shared="harness/shared",
+                 quick=ev("^ZZ_C18_", "list: 4 workloads in 2 namespaces, optional policy with a symbolic range (pod, namespace+pod and ipBlock peers), optional irrelevant / schema-broken / fatal document, optional unreadable file at either end; "
+                          "flags: -o txt|md|dot x --exposure x --focusworkload {none, a, ns1/a, nosuch} x --fail x -q/-v; stdout == library string, failure iff library failure, resource-info API == directory API. "
+                          "diff: two such directories, -o txt|md|dot x --fail",
+                          "-f FILE; json/csv; exit status; flag parsing", models=40)),
+        ],
+    ),
 }
